@@ -23,7 +23,7 @@ func init() {
 	sup.Register(&sup.Check{
 		Prop: "C12", Level: "exploration",
 		Rule: "engine A histories through every write entry point (deletes, resurrections, xattr-only writes, purges, WithMeta writes with CAS above / below / far above the clock or just above the document's own CAS, collection drop; a high-water-mark probe writes elsewhere, refreshes the index and then delivers a replicated version of the collection's newest document) with view queries placed at PRNG-chosen points; four map functions have native Go twins evaluated over a KV read-back of every key, sorted with sg-bucket's JSONCollator then by id, parameters (key, range, inclusive_end, limit, descending, reduce _count/_sum, group, group_level) applied by an independent implementation; a freshly created identical view (full rebuild) must return the same rows as the incrementally maintained one; design documents are replaced mid-history (another map function under the same name, or only other reduce functions); stale=ok / updateAfter queries are perturbations only; (concurrent, also under the race detector) writers, view queries (non-stale / ok / updateAfter) and design-document replacements and deletions through 1-2 handles; at quiescence a non-stale query through every handle must return the rows of the final documents; each spelling of 'not stale' (absent, false, \"false\") takes its turn as the first query after a batch of writes; emitted string keys with mixed case and punctuation; cell = (view, parameter shape, index age, bucket type)",
-		Assumptions: []string{"map functions are a fixed family of four (plus one replacement); the JS engine (otto) and sg-bucket's collator/reduce are trusted dependencies", "limit is not combined with reduce; the `keys` list parameter is not judged (sg-bucket returns one row per listed key)", "bodies flagged JSON are valid JSON objects/numbers; JSON-looking bytes are not written through raw entry points in this profile"},
+		Assumptions: []string{"map functions are a fixed family of four (plus one replacement); the JS engine (otto) and sg-bucket's collator/reduce are trusted dependencies", "limit is not combined with reduce; the `keys` list parameter is not judged (sg-bucket returns one row per listed key); a view is not judged by the twin oracle while it emits an object-valued key (sg-bucket's Collate and CollateRaw order JSON objects differently)", "bodies flagged JSON are valid JSON objects/numbers; JSON-looking bytes are not written through raw entry points in this profile"},
 		Parts: []sup.Part{viewPart("views-random", 500, 8000, voNoMeta), viewPart("views-withmeta", 300, 5000, vo),
 			{Name: "views-concurrent", Timeout: 90 * time.Second, Count: func(t string) int { return tierN(t, 120, 2400) }, Run: func(c *sup.Ctx) {
 				viewsConcurrentScenario(c, rng.New(c.Seed, rng.HashString("C12conc"), uint64(c.Local)))
